@@ -1020,8 +1020,21 @@ fn check(k: usize, h: &[POp], model: &[PV], res: &Result<PRes, (String, String)>
         }
         class += &format!(" signals={}", sigs.len());
     } else if !sigs.is_empty() {
-        // The statement only speaks about successful Sets.
         class += &format!(" (signals without a successful well-typed Set: {})", sigs.len());
+        // A Set that was answered with an error has been rejected: nothing changed, so a
+        // PropertiesChanged "carrying the new value" has nothing to carry. (Signals after Get /
+        // GetAll, or after an invalid Set that was wrongly accepted, are not judged here.)
+        if matches!(res, PRes::Err(_)) && matches!(op, Some(POp::SetWrong(..)) | Some(POp::SetUnknown) | Some(POp::SetRo(_)) | Some(POp::SetRefused(_))) {
+            out.push(
+                base(Violation::new(
+                    "signal-as-annotated",
+                    format!("[{hs}] the Set was answered with {} (rejected, nothing changed) but the client received {:?}", res.show(), sigs.iter().map(|s| s.show()).collect::<Vec<_>>()),
+                    replay.clone(),
+                ))
+                .feat("effect", "signal-after-rejected-set")
+                .feat("invalid", invalid),
+            );
+        }
     }
     (out, class)
 }
